@@ -32,18 +32,18 @@ const (
 
 // Thread is one registered goroutine of an execution.
 type Thread struct {
-	ID      int
-	Name    string
-	gid     uint64
-	resume  chan struct{}
-	state   int
-	site    uintptr       // pc of the point where parked / blocked
-	siteS   string        // explicit site label (rewriter)
-	ready   func() bool   // non-nil: enabled only when it returns true (vsync waits)
-	waitFor string        // description of what it waits for
-	blocked bool          // set by the scheduler when it has observed the thread natively blocked
-	atomic  int           // >0: scheduling points suppressed
-	Panic   any
+	ID         int
+	Name       string
+	gid        uint64
+	resume     chan struct{}
+	state      int
+	site       uintptr     // pc of the point where parked / blocked
+	siteS      string      // explicit site label (rewriter)
+	ready      func() bool // non-nil: enabled only when it returns true (vsync waits)
+	waitFor    string      // description of what it waits for
+	blocked    bool        // set by the scheduler when it has observed the thread natively blocked
+	atomic     int         // >0: scheduling points suppressed
+	Panic      any
 	PanicStack string
 }
 
